@@ -75,6 +75,9 @@ func runC06(r *fw.Run, p *fw.Program) {
 	c06NilRes(r, p)
 	c06USub(r, p)
 	c06RdSlice(r, p)
+	c06LenMin(r, p)
+	c06ErrFirst(r, p)
+	c06LoopGuard(r, p)
 	c06ExploreArrays(p)
 	c06Sym(r, p)
 	c06OutType(r, p)
